@@ -24,7 +24,8 @@ type c04state struct {
 	adv, honest int
 
 	mu          sync.Mutex
-	started     bool // some adversarial registration succeeded
+	updSent     map[string]time.Duration // channel:version -> when the peer put that update proposal on the wire
+	started     bool                     // some adversarial registration succeeded
 	advRegs     []advReg
 	settling    bool
 	settleDone  chan struct{}
@@ -98,6 +99,25 @@ func (c *c04state) advRegister(step int, st *kernel.Step) {
 			}
 		}
 	}
+	if ms := p.s.Sc.Cfg("slow_ledger_update_ms", 0); ms > 0 && !c.slowStarted {
+		// an update of the ledger channel itself is pending at the honest side,
+		// whose user takes seconds to decide: the ledger channel's machine lock
+		// is held while the outdated state is registered and refuted
+		c.slowStarted = true
+		p.mu.Lock()
+		if p.slowNext == nil {
+			p.slowNext = map[string]time.Duration{}
+		}
+		p.slowNext[p.n[c.honest].Name] = time.Duration(ms) * time.Millisecond
+		p.mu.Unlock()
+		p.wg.Add(1)
+		go func() {
+			defer p.wg.Done()
+			p.pay(step, p.chans[0][c.adv], c.adv, 600+int64(step), 30*time.Second, false)
+		}()
+		time.Sleep(2*time.Millisecond + p.s.Delay("adv:slow-ledger-gap", 0, time.Millisecond))
+		p.s.Count("fault.slow_decision_on_ledger_update", 1)
+	}
 	ch := p.chans[0][c.adv]
 	req := channel.AdjudicatorReq{Params: ch.Params(), Acc: p.n[c.adv].Acc.AccMap, Idx: ch.Idx(),
 		Tx: channel.Transaction{State: old.State.Clone(), Sigs: old.Sigs}}
@@ -147,8 +167,14 @@ func (c *c04state) honestSettle(ch *client.Channel) {
 	}
 	func() {
 		p := c.p
-		c.settleBegan = p.s.Now()
 		cd := time.Duration(ch.Params().ChallengeDuration) * time.Second
+		if p.s.Sc.Cfg("lazy_settle", 0) == 1 {
+			// a user who relies on the watcher during the challenge period and
+			// settles only once it is over
+			time.Sleep(cd + time.Second + p.s.Delay("driver:lazy-settle", 0, time.Millisecond))
+			p.s.Count("fault.settle_only_after_challenge_period", 1)
+		}
+		c.settleBegan = p.s.Now()
 		ctx, cancel := context.WithTimeout(context.Background(), cd+180*time.Second)
 		defer cancel()
 		// a Settle call that races with the arrival of the registered events of
@@ -320,6 +346,29 @@ func (c *c04state) check(before map[string][]*big.Int) {
 	s.Res.NonTrivial = refuted
 }
 
+// beganAtHonest returns the instant at which the honest client began to
+// handle the update to version v of channel id: its own Update call, or (a
+// lower bound) the sending of the peer's proposal.
+func (c *c04state) beganAtHonest(id channel.ID, v uint64) (time.Duration, bool) {
+	p := c.p
+	h := p.n[c.honest]
+	p.mu.Lock()
+	defer p.mu.Unlock()
+	for _, o := range p.ops {
+		if o.op == "pay" && o.side == c.honest && o.ch == id && o.version == v && o.class == "ok" {
+			return o.start, true
+		}
+	}
+	// (the peer's proposal waits for the machine lock behind whatever holds it;
+	// what counts is when it joined the queue, and the instant it was sent is a
+	// lower bound of that)
+	_ = h
+	c.mu.Lock()
+	defer c.mu.Unlock()
+	t, ok := c.updSent[fmt.Sprintf("%x:%d", id, v)]
+	return t, ok
+}
+
 // shape classifies a violation by history shape (DESIGN C04/L): was the
 // honest client's newest state enabled after the last registered event its
 // watcher processed (i.e. after the last Register call of the honest side)?
@@ -386,6 +435,17 @@ func (c *c04state) shape() string {
 		// handed over is the client's omission and is not the known defect.
 		handed, ok := h.Rec.PublishedAt(cid, newest.Version)
 		occasion := !ok
+		// The known window closes when the client's event loop for X takes the
+		// first registered event from the watcher: it then waits for the machine
+		// lock (first come, first served) and moves the machine to Registered,
+		// after which no update is accepted. An update whose handling began well
+		// after that instant is not the known defect: the client was told of the
+		// dispute and carried on.
+		if told, tok := h.Rec.FirstToldRegistered(cid); tok {
+			if began, bok := c.beganAtHonest(cid, newest.Version); bok && began > told+100*time.Millisecond {
+				occasion = true
+			}
+		}
 		for _, d := range p.w.Ledger.Deliveries(p.w.Ledger.FirstSubName(h.Name, cid)) {
 			if d.Registered && d.Version < newest.Version && d.At > handed {
 				occasion = true
